@@ -366,6 +366,29 @@ pub struct C05 {
 }
 
 impl C05 {
+    /// a register that holds garbage is read by a call (an argument of the callee) or by an
+    /// ecall: a diagnostic must stand on that instruction
+    fn run_implicit(&self, case: u64, i: usize, acc: &mut Acc) {
+        let (name, src, line, codes) = implicit_reads()[i].clone();
+        acc.count("implicit_read_programs", 1);
+        acc.count("nontrivial", 1);
+        let Ok(run) = imp::analyze_text(&src) else {
+            acc.count("analysis_panicked", 1);
+            return;
+        };
+        acc.count("traces", 1);
+        if !run.diags.iter().any(|d| codes.contains(&d.code.as_str()) && d.start_line == line) {
+            acc.violation(
+                format!("C05|implicit-read-of-garbage-not-reported|{name}"),
+                case,
+                json!({"case": case, "implicit_read": i, "source": src, "reader_line": line + 1, "what": "no diagnostic on the call / ecall that reads the never-assigned (or clobbered) register",
+                       "diagnostics": run.diags.iter().map(|d| (d.code.clone(), d.start_line + 1)).collect::<Vec<_>>()}),
+            );
+            return;
+        }
+        acc.outcome(&format!("implicit-read:{name}"), case);
+    }
+
     /// garbage reads of t0 on the arms of a branch: each one reported on its operand, no
     /// correct read reported
     fn run_two_arm(&self, case: u64, i: u64, acc: &mut Acc) {
@@ -582,6 +605,15 @@ impl C05 {
 
 pub const N_TWO_ARM: u64 = 3 * 8 * 8;
 
+/// garbage read by a call or an ecall (an argument the caller never set): (name, source, 0-based line of the reader, accepted codes)
+pub fn implicit_reads() -> Vec<(&'static str, String, usize, Vec<&'static str>)> {
+    vec![
+        ("callee-argument-never-set", "main:\n    li a0, 1\n    jal g\n    li a7, 1\n    ecall\n    li a7, 10\n    ecall\ng:\n    add a0, a0, a5\n    ret\n".into(), 2, vec!["invalid-use-before-assignment"]),
+        ("ecall-argument-clobbered-by-an-ecall", "main:\n    li a7, 5\n    ecall\n    li a7, 42\n    ecall\n    li a7, 1\n    ecall\n    li a7, 10\n    ecall\n".into(), 4, vec!["invalid-use-before-assignment"]),
+        ("argument-of-a-callee's-callee-never-set", "main:\n    li a0, 1\n    jal f\n    li a7, 1\n    ecall\n    li a7, 10\n    ecall\nf:\n    addi sp, sp, -4\n    sw ra, 0(sp)\n    jal g\n    lw ra, 0(sp)\n    addi sp, sp, 4\n    ret\ng:\n    add a0, a0, a5\n    ret\n".into(), 2, vec!["invalid-use-before-assignment"]),
+    ]
+}
+
 /// (source, expected: for each arm Some(line of the garbage read) / None, lines of correct reads, code)
 pub fn two_arm(i: u64) -> (String, Vec<usize>, Vec<usize>, &'static str) {
     let ctx = (i % 3) as usize; // 0 = main, 1 = function, 2 = after a call
@@ -644,7 +676,7 @@ impl Property for C05 {
         "C05"
     }
     fn cases(&self, tier: Tier) -> u64 {
-        self.n_bases(tier) * CLASSES.len() as u64 * MAX_SITES + N_TWO_ARM
+        self.n_bases(tier) * CLASSES.len() as u64 * MAX_SITES + N_TWO_ARM + implicit_reads().len() as u64
     }
     fn chunk(&self, _tier: Tier) -> u64 {
         1400
@@ -652,6 +684,10 @@ impl Property for C05 {
     fn run_case(&self, tier: Tier, case: u64, acc: &mut Acc) {
         acc.count("cases", 1);
         let injected = self.n_bases(tier) * CLASSES.len() as u64 * MAX_SITES;
+        if case >= injected + N_TWO_ARM {
+            self.run_implicit(case, (case - injected - N_TWO_ARM) as usize, acc);
+            return;
+        }
         if case >= injected {
             self.run_two_arm(case, case - injected, acc);
             return;
@@ -673,6 +709,9 @@ impl Property for C05 {
     }
     fn show(&self, tier: Tier, case: u64) -> String {
         let injected = self.n_bases(tier) * CLASSES.len() as u64 * MAX_SITES;
+        if case >= injected + N_TWO_ARM {
+            return implicit_reads()[(case - injected - N_TWO_ARM) as usize].1.clone();
+        }
         if case >= injected {
             return two_arm(case - injected).0;
         }
@@ -683,6 +722,10 @@ impl Property for C05 {
         }
     }
     fn replay(&self, w: &Value, acc: &mut Acc) {
+        if let Some(i) = w["implicit_read"].as_u64() {
+            self.run_implicit(w["case"].as_u64().unwrap_or(0), i as usize, acc);
+            return;
+        }
         if let Some(i) = w["two_arm"].as_u64() {
             self.run_two_arm(w["case"].as_u64().unwrap_or(0), i, acc);
             return;
